@@ -129,7 +129,12 @@ class PinvMonitor(taps.Monitor):
                 if not well_posed:
                     ctx.bump("tps_inverse_near_singular_floor_not_judged")
             if isinstance(t, (AbstractPWA, mt.ThinPlateSplines)) and well_posed:
-                back = inv.apply(t0.target.points.copy())
+                try:
+                    back = inv.apply(t0.target.points.copy())
+                except Exception as ex:
+                    # (the landmarks are points of the inverse's domain - vertices of its mesh, centres of its kernel)
+                    ctx.fail("inverse_rejects_points_of_its_domain", cls=cls, mech="its_own_landmarks:" + type(ex).__name__, error=repr(ex)[:160])
+                    return
                 e = tx.maxdiff(back, t0.source.points)
                 ctx.err("warp_landmark_return", e)
                 if not (e <= 1e-6 * tx.BOX):
